@@ -44,14 +44,14 @@ ASSUMPTIONS = ["the samplers take all randomness from numpy.random.<fn> looked u
                "the reference model independently of cuqi (up to an additive constant)",
                "ULA is judged only for its documented proposal, absence of an accept step and NaN handling"]
 REQUIRED_COUNTERS = {
-    "quick": {"proposal_maps_identified": 400, "documented_proposal_checked": 400, "threshold_accept_side": 600,
-              "threshold_reject_side": 500, "reject_state_unchanged_checked": 500, "accept_cache_checked": 500,
-              "nan_inf_never_accepted_checked": 60, "reverse_direction_checked": 150, "reload_equivalence_checked": 30,
-              "chain_transitions_checked": 2000, "stationarity_tests": 8},
-    "thorough": {"proposal_maps_identified": 4000, "documented_proposal_checked": 4000, "threshold_accept_side": 6000,
-                 "threshold_reject_side": 5000, "reject_state_unchanged_checked": 5000, "accept_cache_checked": 5000,
-                 "nan_inf_never_accepted_checked": 600, "reverse_direction_checked": 1500, "reload_equivalence_checked": 300,
-                 "chain_transitions_checked": 20000, "stationarity_tests": 60}}
+    "quick": {"proposal_maps_identified": 1200, "documented_proposal_checked": 550, "threshold_accept_side": 2000,
+              "threshold_reject_side": 900, "reject_state_unchanged_checked": 800, "accept_cache_checked": 1600,
+              "nan_inf_never_accepted_checked": 220, "reverse_direction_checked": 700, "reload_equivalence_checked": 100,
+              "chain_transitions_checked": 6000, "stationarity_tests": 8},
+    "thorough": {"proposal_maps_identified": 7000, "documented_proposal_checked": 3500, "threshold_accept_side": 12000,
+                 "threshold_reject_side": 6000, "reject_state_unchanged_checked": 5000, "accept_cache_checked": 10000,
+                 "nan_inf_never_accepted_checked": 1400, "reverse_direction_checked": 4500, "reload_equivalence_checked": 600,
+                 "chain_transitions_checked": 50000, "stationarity_tests": 40}}
 BUDGET_S = {"quick": 240.0, "thorough": 2400.0}
 
 LEGACY_NAME = {"MH": "MH", "CWMH": "CWMH", "PCN": "pCN", "MALA": "MALA", "ULA": "ULA"}
@@ -127,7 +127,7 @@ STAT_TARGETS = {"MH": ["s_gauss1", "s_logistic1", "s_trunc1", "s_gauss2", "s_pro
 
 def _stat_cases(tier, seed):
     out = []
-    K = 4000 if tier == "quick" else 40000
+    K = 4000 if tier == "quick" else 25000
     n = 0
     for name in ("MH", "CWMH", "PCN", "MALA"):
         for iface in ("exp", "legacy"):
@@ -144,7 +144,9 @@ def _stat_cases(tier, seed):
 
 
 def cases(tier, seed):
-    out = _stat_cases(tier, seed) + _chain_cases(tier, seed) + _thr_cases(tier, seed)
+    rest = _chain_cases(tier, seed) + _thr_cases(tier, seed)
+    core.rng_for(seed, PROPERTY, "order", tier).shuffle(rest)     # a wall-clock cut must not fall on one sampler
+    out = _stat_cases(tier, seed) + rest                          # the expensive stat cases first, spread over all shards
     flt = os.environ.get("VERIF_C02_FILTER")       # development only, e.g. "MALA:exp" (a filtered run cannot reach the coverage floors)
     if flt:
         nm, _, ifc = flt.partition(":")
